@@ -35,6 +35,8 @@ from ..core import Ctx, use_repo
 SPEC = 'spec/auth'
 CFG_KEYS = ('api', 'enc', 'tbl', 'm')
 CRED_KEYS = ('sch', 'form', 'user', 'sec', 'realm', 'pres', 'extra', 'qop', 'qf', 'hm')
+VH_KEYS = ('trusted', 'remote', 'rpre', 'rpost', 'xfh', 'host')
+XNAMES = ('xff', 'xfflist', 'xrealip', 'forwarded', 'via', 'clientip', 'xclientip')
 STACK_APIS = ('idiomb', 'idiomd', 'filterb', 'filterd')
 
 
@@ -207,9 +209,9 @@ def dump_session_histories(cfg, workers):
             name, _, val = seg.partition(' = ')
             parts[name.strip()] = val
         toks = _tokens(parts['hist'])
-        if len(toks) % 5:
+        if len(toks) % 7:
             raise tlc.MachineryError('cannot read dumped Sessions history: %r' % parts['hist'][:200])
-        h = tuple(tuple(toks[i:i + 5]) for i in range(0, len(toks), 5))
+        h = tuple(tuple(toks[i:i + 7]) for i in range(0, len(toks), 7))
         hists[h] = _records(parts['out'])
         if len(hists[h]) != len(h):
             raise tlc.MachineryError('cannot read dumped Sessions lines: %r' % parts['out'][:300])
@@ -224,11 +226,11 @@ def dump_session_histories(cfg, workers):
 
 
 def hist_to_script(h):
-    """model history <<ip, agent, kind, arg, op>> -> [[ip, agent, ck, op], ...]"""
+    """model history <<ip, agent, kind, arg, op, header, address named>> -> [[ip, agent, ck, op, [header, address]], ...]"""
     out = []
-    for ip, agent, kind, arg, op in h:
+    for ip, agent, kind, arg, op, xh, xa in h:
         ck = [kind, arg] if kind in ('issued', 'transplant') else [kind]
-        out.append([ip, agent, ck, op])
+        out.append([ip, agent, ck, op, [xh, xa]])
     return out
 
 
@@ -238,10 +240,10 @@ def run_session_script(script, failed=None):
     from . import c20_exec as X
     world = X.SessionWorld()
     lines = []
-    for ip, agent, ck, op in script:
+    for ip, agent, ck, op, xh in script:
         if ck[0] in ('issued', 'transplant') and ck[1] > len(world.sids):
             break
-        ln = world.request(ip, agent, ck, op)
+        ln = world.request(ip, agent, ck, op, xh)
         if ln is not None:
             lines.append(ln)
     if failed is not None:
@@ -268,7 +270,10 @@ def random_session_script(rnd, n):
             ck = ['garbage']
         else:
             ck = ['none']
-        script.append([ip, agent, ck, rnd.choice(['r', 'w', 'w', 'x'])])
+        xh = ['none', 'none']
+        if rnd.random() < 0.3:
+            xh = [rnd.choice(XNAMES), rnd.choice(['a1', 'a2'])]
+        script.append([ip, agent, ck, rnd.choice(['r', 'w', 'w', 'x']), xh])
         upper += 1      # at most one new id per request
     return script
 
@@ -283,7 +288,9 @@ def session_witness(lines, badline):
     same = 'na' if owner is None else ('same' if owner == (ln['ip'], ln['agent']) else
                                          'ip' if owner[1] == ln['agent'] else
                                          'agent' if owner[0] == ln['ip'] else 'both')
-    return {'part': 'sessions', 'cookie': ln['fk'], 'differs': same, 'presented_bound_id': ln['ck'] == ln['sid']}
+    names = 'na' if ln['xh'] == 'none' else ('owner' if owner and owner[0] == ln['xa'] else 'other')
+    return {'part': 'sessions', 'cookie': ln['fk'], 'differs': same, 'presented_bound_id': ln['ck'] == ln['sid'],
+            'header': ln['xh'], 'header_names': names}
 
 
 # ---------------------------------------------------------------------------
@@ -361,9 +368,12 @@ def _run(ctx, quick, rnd, pool, ex, X, R):
     jobs['sess_mc'] = ex.submit(tlc.model_check, SPEC, 'Sessions', 'MC_Sessions.cfg' if quick else 'MC_Sessions_thorough.cfg',
                                 workers=W if quick else 8, timeout=3000)
     jobs['sess_nofp'] = ex.submit(tlc.run_tlc, SPEC, 'Sessions', 'MC_Sessions_nofp.cfg', workers=2)
+    jobs['sess_xff'] = ex.submit(tlc.run_tlc, SPEC, 'Sessions', 'MC_Sessions_xffprint.cfg', workers=2)
     jobs['sess_hist'] = ex.submit(dump_session_histories, 'HIST_Sessions.cfg' if quick else 'HIST_Sessions_thorough.cfg', W)
-    jobs['vh_mc'] = ex.submit(tlc.dump_states, SPEC, 'VHost', 'MC_VHost.cfg', workers=1)      # checks the invariants too
+    jobs['sess_hist_hdr'] = ex.submit(dump_session_histories, 'HIST_Sessions_hdr.cfg' if quick else 'HIST_Sessions_hdr_thorough.cfg', W)
+    jobs['vh_mc'] = ex.submit(tlc.dump_states, SPEC, 'VHost', 'MC_VHost.cfg', workers=2)      # checks the invariants too
     jobs['vh_disc'] = ex.submit(tlc.run_tlc, SPEC, 'VHost', 'MC_VHost_discarded.cfg', workers=1)
+    jobs['vh_suffix'] = ex.submit(tlc.run_tlc, SPEC, 'VHost', 'MC_VHost_suffixtrust.cfg', workers=1)
 
     states = transitions = 0
     cov = {}
@@ -381,13 +391,15 @@ def _run(ctx, quick, rnd, pool, ex, X, R):
     transitions += vh_mc.generated
     if not jobs['vh_disc'].result().violated:
         raise tlc.MachineryError('the "discarded" variant of VHost.tla no longer violates C20: the model lost its teeth')
+    if not jobs['vh_suffix'].result().violated:
+        raise tlc.MachineryError('the "suffixtrust" variant of VHost.tla no longer violates C20: the model lost its teeth')
     pred_kept = {tuple(st['c']): st['out'][0] for st in vh_states if st['c']}
     if len(pred_kept) != vh_mc.distinct - 1:
         raise tlc.MachineryError('VHost dump has %d cases, model has %d states' % (len(pred_kept), vh_mc.distinct))
     vh_cases = sorted(pred_kept)
     vh_lines = []
     for c in vh_cases:
-        case = dict(zip(('trusted', 'remote', 'xfh', 'host'), c))
+        case = dict(zip(VH_KEYS, c))
         vh_lines.append(X.run_vhost(case))
     # is a configured list consulted at all? (classifies the failure): some header that would change
     # the routing, sent from outside a configured list, was ignored
@@ -398,12 +410,14 @@ def _run(ctx, quick, rnd, pool, ex, X, R):
     vh_ok = []
     n_vh_match = 0
     for c, ln, (clause, _) in zip(vh_cases, vh_lines, vh_verdicts):
-        case = dict(zip(('trusted', 'remote', 'xfh', 'host'), c))
+        case = dict(zip(VH_KEYS, c))
         ctx.count_case(['vhost', c], ln['xfh'] not in ('absent', 'empty'),
                        sample={'part': 'vhost', 'case': case, 'line': ln, 'verdict': clause or 'accepted'} if c == vh_cases[len(vh_cases) // 2] else None)
         if clause:
-            ctx.violation(clause, {'part': 'vhost', 'trusted': ln['trusted'], 'remote': ln['remote'], 'xfh': ln['xfh'],
-                                   'list_consulted': consulted}, {'part': 'vhost', 'case': case, 'line': ln})
+            rel = {('', ''): 'exact', ('v6', ''): 'v6mapped', ('1', ''): 'gateway_is_suffix', ('', '0'): 'gateway_is_prefix',
+                   ('1', '0'): 'gateway_is_substring', ('v6', '0'): 'gateway_is_substring'}[(ln['rpre'], ln['rpost'])]
+            ctx.violation(clause, {'part': 'vhost', 'trusted': ln['trusted'], 'remote': ln['remote'], 'address': rel,
+                                   'xfh': ln['xfh'], 'list_consulted': consulted}, {'part': 'vhost', 'case': case, 'line': ln})
         else:
             vh_ok.append(ln)
         if ln == pred_kept[c]:
@@ -494,8 +508,16 @@ def _run(ctx, quick, rnd, pool, ex, X, R):
     transitions += sess_mc.generated
     if not jobs['sess_nofp'].result().violated:
         raise tlc.MachineryError('the "nofp" variant of Sessions.tla no longer violates C20: the model lost its teeth')
+    if not jobs['sess_xff'].result().violated:
+        raise tlc.MachineryError('the "xffprint" variant of Sessions.tla no longer violates C20: the model lost its teeth')
     mark('sess_mc_wait')
     sres, maximal = jobs['sess_hist'].result()
+    # histories in which one request carries a further client-controlled header
+    hres, with_hdr = jobs['sess_hist_hdr'].result()
+    with_hdr = [(h, mout) for h, mout in with_hdr if any(st[5] != 'none' for st in h)]
+    if not XNAMES or {st[5] for h, _ in with_hdr for st in h} - {'none'} < (set(XNAMES) if quick else {'xff', 'xfflist', 'xrealip'}):
+        raise tlc.MachineryError('vacuous Sessions header histories')
+    maximal = maximal + with_hdr
     kinds_seen = set()
     s_failed = []
     straces = []      # (script, lines, origin)
@@ -535,6 +557,7 @@ def _run(ctx, quick, rnd, pool, ex, X, R):
             sess_ok.append(lines)
     mark('sess_replay_validate')
     cov['session_histories_from_tlc'] = len(maximal)
+    cov['session_histories_with_client_header'] = len(with_hdr)
     cov['session_histories_random'] = nrand
     cov['session_model_line_exact_match'] = n_s_match
     cov['session_model_line_compared'] = n_s_cmp
@@ -570,7 +593,7 @@ def _run(ctx, quick, rnd, pool, ex, X, R):
             what = 'cookie removed from a reading request at line %d' % (i + 1)
         muts['SessionsTrace'].append((m, what))
     for ln in vh_ok:
-        if ln['trusted'] != 'none' and not ln['infl'] and ln['remote'] == 'other':
+        if len(muts['VHostTrace']) < 60 and ln['trusted'] != 'none' and not ln['infl'] and ln['remote'] == 'other':
             m = dict(ln)
             m['infl'] = True
             muts['VHostTrace'].append(([m], 'refused header relabelled as honoured'))
@@ -597,7 +620,7 @@ def _run(ctx, quick, rnd, pool, ex, X, R):
         'trace_validation_states': a_stats['states'] + s_stats['states'] + vh_stats['states'],
         'corrupted_traces_rejected': n_muts,
         'pinned_variant_counterexample': pinned.violated,
-        'session_history_dump_states': sres.distinct,
+        'session_history_dump_states': sres.distinct + hres.distinct,
         'rule': 'auth: one case per (api, encrypt/table form, method) x credential class, every state TLC dumps for Auth.tla '
                 '(a state is one check on a fresh request object, or that check followed by a second one on the same object '
                 'for an independent realm/table domain), '
